@@ -119,6 +119,12 @@ type stackOpts struct {
 	rateLimit    *config.RateLimit
 	legacyCookie bool
 	ssoDomain    string // sso.domain of the server and the proxy ("" = "wonderwall")
+	// C14/C17 (cookies.go, retry.go)
+	cookieSecure     bool   // cfg.Cookie.Secure
+	cookieSameSite   string // cfg.Cookie.SameSite ("" = Lax)
+	cookiePrefix     string // cfg.Cookie.Prefix (informational; names are configured by the driver as main.go does)
+	ssoCookieName    string // cfg.SSO.SessionCookieName ("" = cookie.Session)
+	ssoDefaultTarget string // cfg.SSO.ServerDefaultRedirectURL ("" = http://wonderwall/default)
 }
 
 type upstreamRec struct {
@@ -245,7 +251,12 @@ func newStack(o stackOpts) (*stack, error) {
 			ForwardAuth:       o.fwdAuth,
 		},
 	}
-	cfg.Cookie.Secure = false
+	cfg.Cookie.Secure = o.cookieSecure
+	cfg.Cookie.SameSite = config.SameSiteLax
+	if o.cookieSameSite != "" {
+		cfg.Cookie.SameSite = config.SameSite(o.cookieSameSite)
+	}
+	cfg.Cookie.Prefix = o.cookiePrefix
 	if o.rateLimit != nil {
 		cfg.RateLimit = *o.rateLimit
 	}
@@ -256,6 +267,12 @@ func newStack(o stackOpts) (*stack, error) {
 	if o.sso {
 		cfg.SSO = config.SSO{Enabled: true, Domain: ssoDomain, Mode: config.SSOModeServer,
 			SessionCookieName: cookie.Session, ServerDefaultRedirectURL: "http://wonderwall/default"}
+		if o.ssoCookieName != "" {
+			cfg.SSO.SessionCookieName = o.ssoCookieName
+		}
+		if o.ssoDefaultTarget != "" {
+			cfg.SSO.ServerDefaultRedirectURL = o.ssoDefaultTarget
+		}
 	}
 	s.cfg = cfg
 	_, ck := sharedKeys()
